@@ -207,7 +207,8 @@ func syncFailure(o *outcome, err error, w *world) {
 			return
 		}
 	}
-	o.incon = append(o.incon, "harness wait expired without evidence of a blocked send: "+err.Error())
+	busy := busyHavoc(d.Raw, 4)
+	o.incon = append(o.incon, fmt.Sprintf("harness wait expired without evidence of a blocked send: %s; busy goroutines in the code under test: %d %s", err.Error(), len(busy), brief([]byte(strings.Join(busy, " || ")))))
 }
 
 // afterConcurrency marks what a quiescent login found right after a phase with several
@@ -737,7 +738,7 @@ func (t *traffic) watch(bound time.Duration, stop <-chan struct{}) {
 					Det:  map[string]any{"waiters": len(d.Waiters), "stacks": d.trimmed()}})
 			} else {
 				t.fail(finding{Sig: "wedge:unexplained", What: fmt.Sprintf("no progress for %v, no goroutine blocked in SendEvent", bound),
-					Det: map[string]any{"dump_head": brief([]byte(d.Raw))}})
+					Det: map[string]any{"busy_goroutines_in_code_under_test": busyHavoc(d.Raw, 8)}})
 			}
 			return
 		}
